@@ -718,13 +718,29 @@ def _inline_in_function(func, cls, qual, helpers_by_name):
         ast.fix_missing_locations(pre)
         return pre
 
+    def split_complex_target(st):
+        """``obj[k] = H(..)`` / ``obj.a = H(..)`` with H a multi-statement helper: compute into a
+        temporary first (each return of H would otherwise become its own store)"""
+        if isinstance(st, ast.Assign) and len(st.targets) == 1 and isinstance(st.targets[0], (ast.Subscript, ast.Attribute)) \
+                and isinstance(st.value, ast.Call):
+            h = _match_call(st.value, helpers_by_name, func, cls, qual)
+            if h is not None and not h.single_expr and h.node is not func:
+                uid[0] += 1
+                tmp = '%s__r%d' % (h.name.strip('_'), uid[0])
+                names.add(tmp)
+                pre = ast.copy_location(ast.Assign(targets=[ast.Name(id=tmp, ctx=ast.Store())], value=st.value, lineno=st.lineno), st)
+                st.value = ast.copy_location(ast.Name(id=tmp, ctx=ast.Load()), st)
+                ast.fix_missing_locations(pre)
+                return pre
+        return None
+
     def rewrite(body):
         out = []
         for st in body:
             if isinstance(st, (ast.FunctionDef, ast.AsyncFunctionDef, ast.ClassDef)):
                 out.append(st)
                 continue
-            pre = hoist(st)
+            pre = split_complex_target(st) or hoist(st)
             if pre is not None:
                 rep0 = expand(pre)
                 out.extend(rep0 if rep0 is not None else [pre])
